@@ -382,7 +382,8 @@ def _e1(prop, technique, level_text, rule_tail, floors, quick_h=10):
                         "a batch that names a key twice applies its last entry"],
         "jobs": (lambda p, qh: (lambda tier: _e1_jobs(p, tier, quick_h=qh) + (
             [_e2_job(p, tier, name="crash-images", faults=0, second=0)] if p in ("C04", "C08") else []) + (
-            [_e3_job(p, tier)] if p in ("C04", "C07") else [])))(prop, quick_h),
+            [_e3_job(p, tier)] if p in ("C04", "C07") else []) + (
+            [job("tamper", "c04t", shards=16, timeout=3000, cases=q(tier, 3, 60), budget=q(tier, 250, 3000))] if p == "C04" else [])))(prop, quick_h),
         "floors": floors,
     }
 
@@ -408,7 +409,12 @@ _e1("C04",
     "Exploration of fault-free histories (every transaction of every fragment re-checked) plus enumeration of single tampers on copies of real directories.",
     "Non-trivial = history with >=1 rewriting compaction (merge or GC); distinct = hash of the step list.",
     lambda tier: {"distinct_nontrivial": 40, "c04.transactions_checked": 50000, "c04.files_recomputed": 300,
-                  "steps.verifier_pass": 60, "steps.merge": 40, "steps.gc": 5},
+                  "steps.verifier_pass": 60, "steps.merge": 40, "steps.gc": 5,
+                  "ledger.recovered_images_balanced": 1500, "c04.ledgers_checked_at_quiescence": 60,
+                  "neutral_rewrites_accepted": 20, "verdict.rejected": 3000, "tampers.digit:added": 200,
+                  "tampers.digit:removed": 100, "tampers.digit:discard": 200,
+                  "rejected_because.data_loss": 50, "rejected_because.data_construction": 50,
+                  "rejected_because.garbage_collection_has_bad_discard": 50},
     quick_h=12)
 
 _e1("C05",
